@@ -200,7 +200,8 @@ class DictArray(StorageBase):
             return
         if not self.folder.exists():
             return
-        self._dict = load(self._path())
+        # Update in place to keep the backing mapping (might be a proxy shared with subprocesses)
+        self._dict.update(load(self._path()))
 
     @property
     def dump_in_subprocess(self) -> bool:
